@@ -1,8 +1,12 @@
-"""C10 (one clause): out-of-range indices and pops from empty containers are reported; a fixed-capacity
-queue refuses the push that would exceed its capacity. Sequence equality with Vec/VecDeque and drop
-counts are NOT decided."""
+"""C10 (three clauses): out-of-range indices and pops from empty containers are reported, a fixed-capacity
+queue refuses the push that would exceed its capacity; ring cursors are stored only wrapped (R-WRAP); a loop over
+`a..self.f` is not empty by construction (R-EMPTYRANGE: shrinking operations drop what they remove).
+Sequence equality with Vec/VecDeque and drop counts are NOT decided."""
 from vlib import fixtures
 from props import _refusal_common as rc
+from rules import wrap, shrink, order
+from vlib.mir import Fn
+from vlib.run import Broken
 
 FILES = ['src/containers/fast_vec.rs', 'src/containers/specialized/valvec32.rs', 'src/containers/specialized/circular_queue.rs',
          'src/containers/specialized/circular_queue_ultrafast.rs', 'src/containers/specialized/sortable_str_vec.rs',
@@ -13,7 +17,18 @@ FILES = ['src/containers/fast_vec.rs', 'src/containers/specialized/valvec32.rs',
 
 def run(ctx):
     fx = ctx.facts("default")
-    fixtures.run(ctx, ['state', 'taint'])
+    fixtures.run(ctx, ['state', 'taint', 'wrap', 'emptyrange'])
+    # ring cursors are only ever stored wrapped; drop loops of shrinking operations are not empty by construction
+    wrap.run(ctx, fx, 'src/containers/specialized/circular_queue.rs', 'containers::specialized::circular_queue::AutoGrowCircularQueue')
+    ctx.floor('R-WRAP.stores', 9)
+    shrink.empty_range(ctx, fx, FILES)
+    # MmapVec grows by re-reading its file: the live mapping is written back first, unconditionally
+    rec = fx.raw('memory::mmap_vec::MmapVec::<T>::resize_to_capacity')
+    if rec is None:
+        raise Broken('MmapVec::resize_to_capacity not found')
+    order.precede(ctx, Fn(rec), r'MmapVec::<T>::sync$', r'::create_mmap$', 'R-ORDER', 'mapping written back before the file is re-read into the new mapping')
+    ctx.floor('R-ORDER.events', 1)
+    ctx.floor('R-EMPTYRANGE.ranges', 9)
     rc.unsafe_sinks(ctx, fx, FILES, "R-GUARD")
     ctx.floor("R-GUARD.entries", 25)
     ctx.floor("R-GUARD.unchecked_sinks", 20)
@@ -22,13 +37,13 @@ def run(ctx):
     rc.mutators(ctx, fx, FILES, "R-GUARD.state")
     ctx.floor("R-GUARD.state.effects", 15)
     return dict(
-        level_note="decides ONLY the refusal clause of C10 (index parameters guarded before unchecked access; push/pop examine "
+        level_note="decides the refusal clause of C10, the wrapped-cursor invariant of AutoGrowCircularQueue and the non-emptiness of field-bounded ranges (index parameters guarded before unchecked access; push/pop examine "
                    "the container's fullness/emptiness before touching a slot). Element sequences, wrap-around copies, growth "
                    "and drop counts are NOT decided.",
         explanation="taint analysis with index-like parameters as untrusted (struct fields are trusted state) over the public "
                     "functions of the container files: every get_unchecked / pointer arithmetic / raw copy operand must be "
                     "guarded; param_refusal on accessors; state_refusal: each raw read/write in push*/pop* is dominated by a "
                     "test of len/count/capacity (helper or field).",
-        trusted_base=["rustc nightly MIR", "zfacts", "rules/refusal.py", "rules/taint.py"],
+        trusted_base=["rustc nightly MIR", "zfacts", "rules/refusal.py", "rules/taint.py", "rules/wrap.py", "rules/shrink.py"],
         rule_text="obligation = unchecked sink | (accessor, index parameter) | (mutator, raw effect)",
     )
